@@ -23,8 +23,12 @@ CHECKS = {
             "deterministic simulation: invariant on SimSlurm / node ground truth"),
     "C07": ("exploration", "7.7", "every batch at the sbatch seam: size/time limit, group purity, group's HPC parameters and run options, blocked-job rule against disk state; dry-run twin",
             "deterministic simulation: per-batch invariant at the sbatch seam, biased to <=4 jobs"),
+    "C08": ("exploration", "7.8", "component simulation of the public ResultsAggregator API (appenders x collectors at lock- and file-operation granularity) against a multiset model of acknowledged rows, plus conservation in world runs",
+            "deterministic simulation: component simulation + conservation / exactly-once oracle (RefRows)"),
     "C09": ("exploration", "7.9", "status files observed at every lock-free instant at which they changed; consistency and monotonicity within an epoch",
             "deterministic simulation: state invariants + monotonicity monitor at lock-free instants"),
+    "C10": ("exploration", "7.10", "component simulation of the public Cluster API: every operation checked against a single-copy model in lock-acquisition order (promotion result, stale writes rejected with files byte-identical, fresh writes accepted); role-owner monitor in world runs",
+            "deterministic simulation: linearizability check against a single-copy reference model"),
     "C16": ("exploration", "7.16", "hook commands recorded by the shell stub with env and sequence number; counts and ordering per submission / per batch, HPC and local",
             "deterministic simulation: ordering / exactly-once oracle on recorded hook commands"),
     "C18": ("exploration", "7.18", "script options compared field by field with the generated SlurmConfig at every sbatch (option names validated against sbatch's vocabulary); conservative status and bounded retries in world runs and component simulations",
@@ -39,7 +43,7 @@ NOT_APPLICABLE = [
     {"property_id": "C17", "reason": "pure function of one input evaluated by one sequential process: no schedule, clock, fault or second party for a simulator to control (DESIGN.md 7.17)"},
 ]
 
-PENDING = {p: "check not built yet in this session (planned, DESIGN.md section 7); no claim is made" for p in ("C08", "C10", "C11", "C12", "C13", "C14", "C15")}
+PENDING = {p: "check not built yet in this session (planned, DESIGN.md section 7); no claim is made" for p in ("C11", "C12", "C13", "C14", "C15")}
 
 
 def main():
